@@ -5,6 +5,7 @@ capabilities using the full 657-color table from r2rtf.
 """
 
 from collections.abc import Mapping, Sequence
+from contextvars import ContextVar
 from typing import Any
 
 from rtflite.dictionary.color_table import (
@@ -12,6 +13,14 @@ from rtflite.dictionary.color_table import (
     name_to_rgb,
     name_to_rtf,
     name_to_type,
+)
+
+
+# Colours of the document being encoded. A context variable rather than an
+# attribute of the (process-wide) service, so that documents encoded at the same
+# time on different threads or tasks each resolve against their own colour table.
+_CURRENT_DOCUMENT_COLORS: ContextVar[Sequence[str] | None] = ContextVar(
+    "rtflite_current_document_colors", default=None
 )
 
 
@@ -30,9 +39,15 @@ class ColorService:
         self._name_to_type = name_to_type
         self._name_to_rgb = name_to_rgb
         self._name_to_rtf = name_to_rtf
-        self._current_document_colors = (
-            None  # Context for current document being encoded
-        )
+
+    @property
+    def _current_document_colors(self) -> Sequence[str] | None:
+        """Colours of the document being encoded in the current thread/task."""
+        return _CURRENT_DOCUMENT_COLORS.get()
+
+    @_current_document_colors.setter
+    def _current_document_colors(self, used_colors: Sequence[str] | None) -> None:
+        _CURRENT_DOCUMENT_COLORS.set(used_colors)
 
     def validate_color(self, color: str) -> bool:
         """Validate if a color name exists in the color table.
